@@ -21,7 +21,7 @@ CHECKS = {
          'E2 bcflow', '4 C04'),
  'C02': ('exploration', 'bounded-exhaustive enumeration of closure nestings x capture level x call path against a reference interpreter with heap environments',
          'Every combination of nesting depth 1..3 (thorough 1..5), owning level, per-level in-place/returned call path, read/write access and 11 invocation routes (direct, containers, builtin callbacks, try, call, spawn, fn.spawn, vm.Get+vm.Call from Go) is rendered to source and run on the real pipeline and on the reference interpreter; the escaped closure is invoked twice and a sibling closure over the same binding is read afterwards. Plus the binding family F4c: every placement of up to 3 (thorough 4) operations on a name that is a local of the enclosing function over 7 slots of the inner function.',
-         'Trusted: the reference interpreter. One known finding (capture across a returned frame) is matched by a generator-side structural tag; any other disagreement is a violation.',
+         'Trusted: the reference interpreter. The former known finding (capture across a returned frame) has been repaired in the repository; any disagreement is a violation.',
          'E1 progen+refsem', '4 C02'),
  'C05': ('exploration', 'bounded-exhaustive enumeration of Go map iteration orders at every dynamic map-range site (source-to-source seam generated at check time) x corpus programs',
          'tools/mapseam rewrites all 59 range-over-map sites of the risor packages into a harness-controlled iterator (build overlay; /repo untouched). For every corpus program and every dynamic site it executes, every alternative order of that one site (all permutations for <= 3 keys; reverse, rotations, boundary swaps above) is forced; value, error text, output, MarshalCode bytes and re-marshalled bytes must equal the base order. The corpus includes every deterministic default builtin and every map/set method applied to a 4-key map and set, alone and with tie-making printing callbacks.',
@@ -29,7 +29,7 @@ CHECKS = {
          'E6 mapseam', '4 C05'),
  'C06': ('model_checking', 'stateless model checking of the implementation: controlled scheduler over the hooked goroutines, every cancellation instant x every schedule up to a deviation bound, promptness counted in VM instructions',
          'Every combination of child prefix (go/spawn/fn.spawn, looping or blocked, nested to depth 2-3) x main shape (5 loop forms, recursion, 5 blocked operations, 7 callback-carrying builtins) x cancellation instant (every VM instruction of the main task is a scheduling point; the canceller gate opens at point k or when the system is idle) is run under internal/dsched, on a fresh VM and - for the scenarios without children and with a looping go-child - on a reused VM (RunCode after an earlier run with the same context; Call of a function on such a VM); every schedule with at most 1 (thorough 2) deviations of canceller, watcher goroutines, children and main is enumerated. Oracle: Eval returns the context error, at most 3 instructions are dispatched by a VM whose halt flag is set, no blocked operation survives the cancel, and after Eval returned every started task ends within the drain horizon.',
-         'Trusted: the verif hooks cover every blocking operation and goroutine start of the packages involved; a granted operation that was enabled only by a cancelled context and does not return within 10 s (twice) is reported as blocked forever. Real-time latency is not measured.',
+         'Trusted: the verif hooks cover every blocking operation and goroutine start of the packages involved; a granted operation that was enabled only by a cancelled context and does not return within 45 s (twice) is reported as blocked forever. Real-time latency is not measured.',
          'E3 dsched', '4 C06'),
  'C07': ('model_checking', 'explicit enumeration of API histories on one VM, each explored under the controlled scheduler over all placements of stale context cancellations and watcher stores up to a deviation bound; differential oracle against a fresh VM',
          'Every history of 1..3 invocations (thorough: larger alphabet, length 4) over RunCode/Call x outcome kinds (normal, runtime error at depth 0/2, recovered Go panic, frame overflow, cancelled mid-run, a Call that fails inside a function after it created a closure) x one stale cancel of an earlier invocation context; the canceller, the watcher goroutines of all runs and the main task are interleaved at VM-instruction granularity within the deviation bound. Each invocation must return the (value, error class, stack depth) it returns on a fresh VM.',
